@@ -1186,6 +1186,41 @@ static void long_entries_body()
     mc::outcome(mc::fmt("entry:%zu", expect.size()));
 }
 
+// ------------------------------------------------------------------ (8) re-entrant output callback
+// The engine hands characters to a callback while a conversion is in progress.  A callback that itself
+// formats something through the engine (a logger with a time stamp, a line-number prefix) must not
+// disturb the outer call: digits built in static scratch memory would be overwritten by the nested call.
+static void reentrant_callback_body()
+{
+    vector<Part> &P = parts();
+    int n = (int)P.size();
+    int combo = mc::choose(n * n);
+    static const int PERIOD[4] = {1, 2, 5, 11};
+    int pi = mc::choose(4), kind = mc::choose(NEST_KINDS);
+    const Part &p0 = P[combo % n], &p1 = P[combo / n];
+    string f = string(p0.frag) + "~" + p1.frag;
+    Args a = p0.args;
+    a.insert(a.end(), p1.args.begin(), p1.args.end());
+    mc::describe("format %s args [%s]; after every %d%s output character the callback runs nested format #%d through the engine", vis(f).c_str(),
+                 show_args(a).c_str(), PERIOD[pi], PERIOD[pi] == 1 ? "" : "th", kind);
+    mc::crash_context("C06.reentrant_callback.crash");
+    Out plain = run_impl(f, a);
+    size_t calls = 0;
+    string bad;
+    Out got = run_impl_nested(f, a, PERIOD[pi], kind, &calls, &bad);
+    mc::crash_context("C06.harness");
+    if (got.text != plain.text || got.ret != plain.ret || got.emitted != plain.emitted)
+        mc::violation("C06.reentrant_callback.outer_text",
+                      "format %s args [%s]: with a callback that formats through the engine (%zu nested calls) the outer call emitted %s and "
+                      "returned %d; undisturbed it emits %s and returns %d",
+                      vis(f).c_str(), show_args(a).c_str(), calls, vis(got.text).c_str(), got.ret, vis(plain.text).c_str(), plain.ret);
+    if (!bad.empty())
+        mc::violation("C06.reentrant_callback.nested_text", "format %s args [%s]: %s", vis(f).c_str(), show_args(a).c_str(), bad.c_str());
+    if (calls >= 2)
+        mc::nontrivial(); // at least two nested calls ran inside the outer one
+    mc::outcome(mc::fmt("%zu nested calls", calls));
+}
+
 MC_INIT
 {
     for (unsigned f = 0; f < 32; f++)
@@ -1204,6 +1239,7 @@ MC_INIT
     mc::add_check("pointers", pointers_body);
     mc::add_check("mixed_formats", mixed_body);
     mc::add_check("libc_entries", entries_body);
+    mc::add_check("reentrant_callback", reentrant_callback_body);
     mc::add_check("long_strings", long_strings_body);
     mc::add_check("long_integers", long_integers_body);
     mc::add_check("long_chars_and_text", long_chars_and_text_body);
